@@ -1034,6 +1034,279 @@ def describe_expr(case):
 
 
 # ================================================================================================
+# suite "hist": the real re-evaluate / re-subscribe loop (ConfigPlayer._update_subscription) under change histories
+def tree_reads(t):
+    if t[0] == "read":
+        return [lockey(t)]
+    out = []
+    for x in subtrees(t):
+        out += tree_reads(x)
+    return out
+
+
+def gen_hist(rng, tier, i):
+    while True:
+        case = gen_expr_case(rng, False, in_game=True)
+        if rng.random() < 0.85 and not has_read(case["tree"]):
+            continue
+        if tree_uses_names(case["tree"]):
+            continue                      # the loop evaluates with parameters []: a name always raises
+        break
+    case["kind"] = rng.choice(["raw", "raw", "bool"])
+    case["default"] = tagv(rng.choice(DEFAULTS[case["kind"]]))
+    case["env"]["params"] = {}
+    rd = tree_reads(case["tree"])
+    env = json.loads(json.dumps(case["env"]))
+    changes = []
+    for _ in range(rng.choice([1, 2, 3, 4, 6, 8])):
+        if rd and rng.random() < 0.75:
+            key = rng.choice(rd)
+        else:
+            key = rng.choice(["machine." + n for n in MVARS] + ["settings." + n for n in SETTINGS] +
+                             ["device." + n for n in SWITCHES] + ["player." + n for n in PVARS])
+        kind, name = key.split(".", 1)
+        if kind == "machine":
+            cur = env["mvars"].get(name)
+            if rng.random() < 0.2:
+                ch = ["rm", name]
+                env["mvars"].pop(name, None)
+            else:
+                v = pick_value(rng, cur)
+                ch = ["mv", name, v]
+                env["mvars"][name] = v
+        elif kind == "settings":
+            v = tagv(rng.choice(SETTING_VALUES[name]))
+            ch = ["set", name, v]
+            env["settings"][name] = v
+        elif kind == "device":
+            v = rng.choice([0, 1])
+            ch = ["sw", name, v]
+            env["switches"][name] = v
+        else:
+            v = pick_value(rng, env["pvars"].get(name))
+            ch = ["pv", name, v]
+            env["pvars"][name] = v
+        changes.append(ch)
+    case["changes"] = changes
+    return case
+
+
+def tree_uses_names(t):
+    return t[0] == "name" or any(tree_uses_names(x) for x in subtrees(t))
+
+
+def pick_value(rng, cur):
+    r = rng.random()
+    if cur is not None and r < 0.12:
+        return cur                                             # coincidence: same value again
+    if cur is not None and r < 0.18 and cur in (["i", "1"], ["i", "0"], ["b", True], ["b", False]):
+        return {"1": ["b", True], "0": ["b", False], "True": ["i", "1"], "False": ["i", "0"]}[str(cur[1])]   # 1 <-> True
+    return tagv(rvalue(rng, False))
+
+
+def apply_env_change(env, ch):
+    k = ch[0]
+    if k == "mv":
+        env["mvars"][ch[1]] = ch[2]
+    elif k == "rm":
+        env["mvars"].pop(ch[1], None)
+    elif k == "set":
+        env["settings"][ch[1]] = ch[2]
+    elif k == "sw":
+        env["switches"][ch[1]] = ch[2]
+    elif k == "pv":
+        env["pvars"][ch[1]] = ch[2]
+
+
+def _hist_rig():
+    from rig import FakeGameRig
+    if "hist" not in _R:
+        r = FakeGameRig(MACHINE_CONFIG).start()
+        r.start_game()
+        r.advance(1)
+        assert r.machine.game and r.machine.game.player
+        _R["hist"] = r
+    return _R["hist"]
+
+
+def apply_real_change(rig, ch):
+    m = rig.machine
+    k = ch[0]
+    if k == "mv":
+        m.variables.set_machine_var(ch[1], untag(ch[2]))
+    elif k == "rm":
+        m.variables.remove_machine_var(ch[1])
+    elif k == "set":
+        m.settings.set_setting_value(ch[1], untag(ch[2]))
+    elif k == "sw":
+        m.switch_controller.process_switch(ch[1], ch[2], logical=True)
+    elif k == "pv":
+        m.game.player[ch[1]] = untag(ch[2])
+    rig.advance(0.01)
+
+
+def run_hist(case):
+    import asyncio
+    from mpf.core.config_player import ConfigPlayer
+    rig = _hist_rig()
+    m = rig.machine
+    e = case["env"]
+    setup_env(rig, e)
+    player = m.game.player
+    for n in PVARS:
+        player.vars.pop(n, None)
+    for n, t in e["pvars"].items():
+        player.vars[n] = untag(t)
+    rig.advance(0.01)
+    pm = m.placeholder_manager
+    default = untag(case["default"])
+    if case["kind"] == "raw":
+        template = pm.build_raw_template(case["text"], default)
+    else:
+        template = pm.build_bool_template(case["text"], default)
+    state = {"calls": 0, "last": None}
+    sublist = {}
+
+    class Loop:
+        """the real ConfigPlayer._update_subscription with a recording consumer"""
+        machine = m
+
+        def handle_subscription_change(self, value, settings, priority, context, key):
+            state["calls"] += 1
+            state["last"] = {"v": tagv(value)}
+
+        def _update_subscription(self, *args):
+            if state.get("dead"):
+                return
+            try:
+                ConfigPlayer._update_subscription(self, *args)
+            except BaseException as ex:   # noqa
+                if isinstance(ex, (KeyboardInterrupt, SystemExit)):
+                    raise
+                state["dead"] = True
+                state["calls"] += 1
+                state["last"] = {"exc": type(ex).__name__}
+    loop = Loop()
+    loop._update_subscription(template, sublist, {}, 0, "ctx", "key", None)
+    out = {"init": state["last"], "steps": [], "dom": True}
+    env = json.loads(json.dumps(e))
+
+    def domain_now():
+        ref, trace = ref_result(case["tree"], env_store(env))
+        if trace.get("float") or trace.get("fmt") or (ref[0] == "other" and ref[1] != "crash"):
+            out["dom"] = False
+        return trace.get("reads", [])
+    domain_now()
+    for ch in case["changes"]:
+        before = state["calls"]
+        apply_real_change(rig, ch)
+        apply_env_change(env, ch)
+        reads = domain_now()
+        fresh = mpf_eval(pm, case["kind"], case["text"], default, [], subscribe=True)
+        out["steps"].append({"fired": state["calls"] > before, "last": state["last"], "fresh": fresh, "reads": reads})
+    fut = sublist.get(template)
+    if fut is not None:
+        fut.cancel()
+    rig.advance(0.01)
+    if rig.machine.stop_future.done():
+        _R.pop("hist", None)
+        return {"harness_error": "machine stopped during the case"}
+    return out
+
+
+def py_equal(a, b):
+    """Python == on delivered values (1 == True counts as equal), identical exceptions"""
+    if "v" in a and "v" in b:
+        try:
+            x, y = untag(a["v"]), untag(b["v"])
+        except ValueError:
+            return a == b
+        if x != x and y != y:
+            return True
+        return x == y
+    return "exc" in a and "exc" in b
+
+
+def oracle_hist(case, out):
+    fails = []
+    dead = "exc" in out["init"]
+    suspects = []
+    for i, (ch, st) in enumerate(zip(case["changes"], out["steps"])):
+        if dead or "exc" in st["last"]:
+            break
+        if "exc" in st["fresh"]:
+            continue                         # evaluating now raises: no value to be stale against
+        if st["fired"]:
+            suspects = []
+        else:
+            suspects.append(ch)
+        if not py_equal(st["last"], st["fresh"]):
+            rd = set(st["reads"]) | set(out["steps"][i - 1]["reads"] if i else [])
+            culprits = [c for c in suspects if chkey(c) in rd] or suspects
+            if culprits and all(c[0] == "pv" and c[2] == ["n"] for c in culprits):
+                fails.append({"sig": "stale-player-var-set-to-none",
+                              "what": "a player variable set to None posts no player_<name> event: a subscribed template keeps the old value"})
+            else:
+                fails.append({"sig": "stale-value",
+                              "what": "%r: after change %d (%r) the subscriber still holds %r but the template now evaluates to %r" %
+                                      (case["text"], i, ch, st["last"], st["fresh"])})
+            break
+    return fails
+
+
+def chkey(ch):
+    return {"mv": "machine.", "rm": "machine.", "set": "settings.", "sw": "device.", "pv": "player."}[ch[0]] + ch[1]
+
+
+def cchange(ch):
+    k = ch[0]
+    if k == "mv":
+        return "(CSetMachine %s %s)" % (cstr(ch[1]), cval(ch[2]))
+    if k == "rm":
+        return "(CRemoveMachine %s)" % cstr(ch[1])
+    if k == "set":
+        return "(CSetSetting %s %s)" % (cstr(ch[1]), cval(ch[2]))
+    if k == "sw":
+        return "(CSetDevice %s %s %s (VInt %d))" % (cstr("switches"), cstr(ch[1]), cstr("state"), ch[2])
+    return "(CSetPlayer %s %s)" % (cstr(ch[1]), cval(ch[2]))
+
+
+def coq_hist(case, out):
+    if not out["dom"]:
+        return None
+    outs = [out["init"]] + [st["last"] for st in out["steps"]]
+    cs = [coutcome(o) for o in outs]
+    if any(c is None for c in cs):
+        return None
+    inp = "(%s, %s, %s, %s, %s)" % (CKIND[case["kind"]], cval(case["default"]), cenv(case["env"]), cexpr(case["tree"]),
+                                    coqlist(cchange(c) for c in case["changes"]))
+    exp = "(%s, %s)" % (cs[0], coqlist("(%s, %s)" % (blit(st["fired"]), c) for st, c in zip(out["steps"], cs[1:])))
+    return "(%s, %s)" % (inp, exp)
+
+
+def shrink_hist(case):
+    ch = case["changes"]
+    for i in range(len(ch)):
+        c = dict(case)
+        c["changes"] = ch[:i] + ch[i + 1:]
+        if c["changes"]:
+            yield c
+    for c in shrink_expr(case):
+        if not tree_uses_names(c["tree"]):
+            yield c
+
+
+def nontrivial_hist(case, out):
+    return any(chkey(c) in set(st["reads"]) or st["fired"] for c, st in zip(case["changes"], out["steps"]))
+
+
+def describe_hist(case):
+    return "changes=%d %s" % (len(case["changes"]), "".join(sorted(set(c[0][0] for c in case["changes"]))))
+
+
+HDR_HIST = "From C16 Require Import Model.\nDefinition run := hist_run.\nDefinition out_eqb := hist_out_eqb.\n"
+
+# ================================================================================================
 HDR_OPS = "From C16 Require Import Model.\nDefinition run := ops_run.\nDefinition out_eqb := res_eqb.\n"
 HDR_EXPR = "From C16 Require Import Model.\nDefinition run := expr_run.\nDefinition out_eqb := expr_out_eqb.\n"
 
@@ -1042,6 +1315,8 @@ SUITES = [
           {"quick": 6000, "thorough": 200000}, describe=describe_ops, shard=1500),
     Suite("expr", gen_expr, run_expr, HDR_EXPR, coq_expr, oracle_expr, shrink_expr, nontrivial_expr,
           {"quick": 4000, "thorough": 150000}, describe=describe_expr, shard=500),
+    Suite("hist", gen_hist, run_hist, HDR_HIST, coq_hist, oracle_hist, shrink_hist, nontrivial_hist,
+          {"quick": 1500, "thorough": 40000}, describe=describe_hist, shard=300),
     Suite("ext", gen_ext, run_expr, None, None, oracle_expr, shrink_expr, nontrivial_expr,
           {"quick": 1500, "thorough": 50000}, describe=describe_expr),
 ]
